@@ -593,7 +593,7 @@ def finalize_dict_concatenate(
     input_dict: dict,
     concatenate_sign: typing.Union[str, None] = '\x16',
 ) -> dict:
-    for k, v in d.items():
+    for k, v in input_dict.items():
         if v.startswith(concatenate_sign):
             input_dict[k] = v[1:]
     return input_dict
